@@ -9,7 +9,7 @@ import coqemit as E
 
 ID = "C05"
 PROPS = "Props/C05.v"
-IMPORTS = "From Coq Require Import PrimFloat.\nFrom PV Require Import Lib.Common Lib.FloatK Model.C05_Latent."
+IMPORTS = "From Coq Require Import PrimFloat.\nFrom PV Require Import Lib.Common Lib.FloatK Model.C05_Latent Model.C05_Factory."
 SHARD = 40
 LEVEL_TEXT = ("Coq theorems over an exact-rational model of the criterion families (linear, quadratic/kinship-factor, L1, family, "
               "allele-frequency distance/unavailability, optimal population value, genotype builder) and of evalfn: the subset formula of "
@@ -212,7 +212,9 @@ def run_latent(case):
     out["sub"] = _lat(ps, xs)
     out["sub_perm"] = _lat(ps, xp)
     out["ev_sub"] = _ev(ps, xs)
-    out["evaluate_sub"] = _evaluate(ps, [xs, xp]) if 0 < k <= n else None      # pymoo insists on len(x) == ndecn <= n
+    x2 = numpy.array([(i + 1) % n for i in s], dtype=int)                        # a different selection for the second row
+    out["ev_sub2"] = _ev(ps, x2)
+    out["evaluate_sub"] = _evaluate(ps, [xs, x2]) if 0 < k <= n else None      # pymoo insists on len(x) == ndecn <= n
     out["evaluate_sub1"] = _evaluate(ps, xs) if 0 < k <= n else None
     if fam in SUBSET_ONLY:
         return out
@@ -237,7 +239,9 @@ def run_latent(case):
     out["xr"] = _lat(pr, xr)
     out["xr_a"] = _lat(pr, a * xr)
     out["ev_real"] = _ev(pr, xr)
-    out["evaluate_real"] = _evaluate(pr, [xr, a * xr])
+    xi_f = numpy.array(case["xi"], dtype=float)
+    out["ev_real2"] = _ev(pr, xi_f)
+    out["evaluate_real"] = _evaluate(pr, [xr, xi_f])
     out["zero_real"] = _lat(pr, numpy.zeros(n))
     return out
 
@@ -272,7 +276,8 @@ def gen_data(rng, fam, n, t, ploidy=None):
         geno = [[{"fix0": 0, "fix1": ploidy, "one": ploidy, "poly": rng.randint(0, ploidy)}[kinds[j]] for j in range(p)] for _ in range(n)]
         for j in range(p):
             if kinds[j] == "one": geno[rng.randrange(n)][j] = ploidy - 1
-        tf = lambda: rng.choice([0.0, 1.0, 0.5, 0.25, rng.randint(1, 15) / 16])
+        inner = fam == "pau" and rng.random() < 0.6       # PAU mishandles targets of exactly 0 / 1 (known finding): keep clean cases too
+        tf = (lambda: rng.choice([0.5, 0.25, rng.randint(1, 15) / 16])) if inner else (lambda: rng.choice([0.0, 1.0, 0.5, 0.25, rng.randint(1, 15) / 16]))
         return {"geno": geno, "ploidy": ploidy, "mkrwt": [[rng.randint(0, 32) / 8 for _ in range(t)] for _ in range(p)],
                 "tfreq": [[tf() for _ in range(t)] for _ in range(p)]}
     if fam in ("opv", "gb"):
@@ -469,16 +474,16 @@ def pred_latent(case, out):
     for key in ("evaluate_sub", "evaluate_sub1"):
         r = out.get(key)
         if r is None: continue
-        rows = 2 if key == "evaluate_sub" else 1
-        exp = out["ev_sub"]
-        for nm, g in zip(("F", "G", "H"), exp):
+        exps = [out["ev_sub"], out["ev_sub2"]] if key == "evaluate_sub" else [out["ev_sub"]]
+        if any(isinstance(e, dict) for e in exps): continue
+        for ix, nm in enumerate(("F", "G", "H")):
             have = r.get(nm)
-            if len(g) == 0:
+            if len(exps[0][ix]) == 0:
                 if have not in (None, []) and any(len(h) for h in have): bad.append("%s[%s] not empty" % (key, nm))
                 continue
-            if have is None or len(have) != rows: bad.append("%s[%s] has wrong shape" % (key, nm)); continue
-            for h in have:
-                if not _closel(_frl(h), _frl(g)): bad.append("%s[%s] row != evalfn of that row" % (key, nm))
+            if have is None or len(have) != len(exps): bad.append("%s[%s] has wrong shape" % (key, nm)); continue
+            for h, e in zip(have, exps):
+                if not _closel(_frl(h), _frl(e[ix])): bad.append("%s[%s] row != evalfn of that row" % (key, nm))
     if fam in SUBSET_ONLY:
         return bad
     guarded = fam in GUARDED
@@ -505,9 +510,12 @@ def pred_latent(case, out):
     if "ev_bin" in out and not _evalfn_ok(ev, [F(v) for v in cnt], _frl(out["bin"]) or [], out["ev_bin"]): bad.append("binary evalfn != weights * transformations(latent)")
     r = out.get("evaluate_real")
     if r is not None and not isinstance(r, dict): bad.append("evaluate_real")
-    elif r is not None and "exc" not in r:
-        for nm, g in zip(("F", "G", "H"), out["ev_real"]):
-            if len(g) and (r.get(nm) is None or not _closel(_frl(r[nm][0]), _frl(g))): bad.append("evaluate(X)[%s] row 0 != evalfn(x)" % nm)
+    elif r is not None and "exc" not in r and not isinstance(out["ev_real2"], dict):
+        for ix, nm in enumerate(("F", "G", "H")):
+            for row, e in enumerate((out["ev_real"], out["ev_real2"])):
+                if sum(case["xi"]) == 0 and row == 1 and fam not in GUARDED: continue        # nan row
+                g = e[ix]
+                if len(g) and (r.get(nm) is None or len(r[nm]) != 2 or not _closel(_frl(r[nm][row]), _frl(g))): bad.append("evaluate(X)[%s] row %d != evalfn of that row" % (nm, row))
     seen = []
     for b in bad:
         if b not in seen: seen.append(b)
@@ -898,6 +906,63 @@ def pred_factory(case, out):
         if b not in seen: seen.append(b)
     return seen[:8]
 
+def _qh(a):
+    """nested hex strings -> nested Coq Q literals (exact)"""
+    if isinstance(a, list): return "[" + "; ".join(_qh(v) for v in a) + "]"
+    return E.q(Fraction(float.fromhex(a) if isinstance(a, str) else float(a)))
+
+def emit_factory(case, out):
+    """factory data evaluated in Coq for the factories with an exact-rational definition"""
+    which, pop, A = case["which"], case["pop"], case["args"]
+    if which not in ("gebv_gmat", "gwgebv", "ohv", "opv", "gb", "l1", "uc", "uc_xmap", "pafd", "pau", "mogs"): return None
+    if any(isinstance(o, dict) and ("exc" in o or o.get("skip")) for o in out.values()): return None
+    n, p, t = len(pop["labels"]), len(pop["chrgrp"]), len(pop["beta"])
+    hap = E.lst3(pop["hap"], E.z); u = _ql2(pop["u"]); beta = _ql(pop["beta"])
+    head = "let hap := %s in let u := %s in\n  " % (hap, u)
+    parts = []
+    if which == "gebv_gmat":
+        if not A["unscale"]: return None
+        head += "let g := gebv_def hap u %s %d %d %d in\n  " % (beta, n, p, t)
+        parts = ["qclose_ll %s g" % _qh(o["gebv"]) for o in out.values()]
+    elif which == "gwgebv":
+        if A["alpha"] not in (0.0, 1.0, 2.0): return None
+        head += "let g := gwgebv_def hap u %d %d %d %d in\n  " % (int(A["alpha"]), n, p, t)
+        parts = ["qclose_ll %s g" % _qh(o["gwgebv"]) for o in out.values()]
+    elif which in ("ohv", "opv", "gb"):
+        bnd = out["Subset"]["bounds"]
+        if len(bnd) != A["nhaploblk"]: return None
+        B = "[" + "; ".join("(%d%%nat, %d%%nat)" % (a, b) for a, b in bnd) + "]"
+        if which == "ohv":
+            head += "let m := ohvmat_def hap u %s %d %d %s in\n  " % (B, n, t, E.b(A["unique"]))
+            parts = ["qclose_ll %s m" % _qh(o["ohvmat"]) for o in out.values()]
+            parts += ["list_eqb natl_eqb %s (if %s then pairs_unique %d else pairs_any %d)" % (E.lst2(o["xmap"], E.nat), E.b(A["unique"]), n, n) for o in out.values()]
+        else:
+            head += "let H := haploval hap u %s %d %d in\n  " % (B, n, t)
+            parts = ["list_eqb (list_eqb qclose_ll) %s H" % _qh(o["haplomat"]) for o in out.values()]
+    elif which == "l1":
+        head += "let V := l1_tensor hap u %s %d %d %d in\n  " % (_ql2(A["tfreq"]), n, p, t)
+        parts = ["list_eqb qclose_ll %s V" % _qh(o["V"]) for o in out.values()]
+    elif which in ("uc", "uc_xmap"):
+        import scipy.stats
+        si = float(scipy.stats.norm.pdf(scipy.stats.norm.ppf(1.0 - A["pct"])) / A["pct"])
+        head += "let bv := gebv_def hap u %s %d %d %d in\n  " % (beta, n, p, t)
+        for o in out.values():
+            vm = _unhex(o["vmat"])
+            rows = []
+            for got, pair in zip(o["ucmat"], o["xmap"]):
+                rows.append("uc_ok %s (uc_parts bv %s %s %s %d %s)" % (_qh(got), _ql(o["epgc"]), _q(si), _ql(vm[pair[0]][pair[1]]), t, E.lst(pair, E.nat)))
+            parts.append("(" + " && ".join(rows) + ")")
+            if which == "uc":
+                parts.append("list_eqb natl_eqb %s (if %s then pairs_unique %d else pairs_any %d)" % (E.lst2(o["xmap"], E.nat), E.b(A["unique"]), n, n))
+            break                                      # the four encodings share one staticmethod; one evaluation in Coq is enough (all four are compared by the predicate)
+    elif which in ("pafd", "pau", "mogs"):
+        o = out["Subset"]
+        parts = ["zll_eqb %s (map (fun i => map (fun j => dosage hap i j) (seq 0 %d)) (seq 0 %d))" % (E.lst2(o["geno"], E.z), p, n), "Z.eqb %s (Z.of_nat (length hap))" % E.z(o["ploidy"])]
+        if A["callable"]:
+            parts.append("qll_eqb %s (map (map Qabs') u)" % _qh(o["mkrwt"]))
+            parts.append("qll_eqb %s (map (map (fun e => if Qle_bool e 0%%Q then 0%%Q else 1%%Q)) u)" % _qh(o["tfreq"]))
+    return head + "(" + "\n   && ".join(parts) + ")"
+
 # ------------------------------------------------------------------------------------------------ special cases
 def run_special(case):
     k = case["kind"]
@@ -951,8 +1016,9 @@ def pred(case, out):
     return pred_special(case, out)
 
 def emit_case(case, out):
-    if case["kind"] != "latent": return None
     if "exc" in out and "tb" in out: return "false"
+    if case["kind"] == "factory": return emit_factory(case, out)
+    if case["kind"] != "latent": return None
     return emit_latent(case, out)
 
 def _bad_size(N):
